@@ -6,36 +6,36 @@ BASE = "trusted: neo-go v0.107.0 VM/ledger/native contracts and compiler library
 
 CHECKS = {
  "C01": ("chainmc", "explicit-state BFS over operation sequences on the real Balance+Netmap bytecode, lock-step reference model + storage invariants",
-         "all sequences up to depth 4 (quick) / 6 (thorough) over a 70-operation alphabet (mint/burn/transfer/transferX/lock/ticks; negative, zero, exact, over-balance and 2^70 amounts; wrong-length addresses; contract caller), state-deduplicated; every transition checks sum==totalSupply, no negative record, supply moves only by mint/burn, refused => empty diff, notification stream replays to the balances, agreement with a map-based model", "4.1"),
+         "all sequences up to depth 4 (quick) / 7 (thorough) over a 75-operation alphabet (mint/burn/transfer/transferX/lock/ticks; negative, zero, exact, over-balance and 2^70 amounts; wrong-length addresses; contract caller), state-deduplicated; every transition checks sum==totalSupply, no negative record, supply moves only by mint/burn, refused => empty diff, notification stream replays to the balances, agreement with a map-based model", "4.1"),
  "C02": ("chainmc", "explicit-state BFS over (from,to,amount,signer-set) transfers interleaved with Alphabet operations; authorisation oracle on every balance decrease",
-         "all sequences up to depth 3 / 5 over ~200 operations: every transfer crossed with signer sets {from,to,stranger,Alphabet,from+Alphabet,nobody}, contract callers, wrong-length hashes; every decrease of any account must be covered by its witness, its own contract call or the Alphabet", "4.2"),
+         "all sequences up to depth 4 / 6 over ~210 operations on a 3-key committee: every transfer crossed with signer sets {from,to,stranger,Alphabet,from+Alphabet,nobody}, committee-majority signers on the Alphabet-only methods, contract callers and contract-owned accounts (the token's own hash) debited from outside, wrong-length hashes; every decrease of any account must be covered by its witness, its own contract call or the Alphabet", "4.2"),
  "C04": ("chainmc", "explicit-state BFS over put/putNamed/putMeta/delete/setEACL/time sequences on Container+NNS+Balance+Netmap+NeoFSID, lock-step registry model + raw storage scan",
-         "all sequences up to depth 5 / 7 over 2 owners x 4 blobs (two version-field offsets) x names, strangers, a 10-year clock jump; after every step every getter for every id (incl. a never-put one), list/containersOf/count as sets, NNS alias records, tombstones and a raw scan of all six key families", "4.4"),
- "C06": ("chainmc", "explicit-state BFS over candidate/subscription/tick/next-block sequences on Netmap+Balance+probe subscribers, lock-step model",
+         "all sequences up to depth 5 / 8 over 2 owners x 4 blobs (two version-field offsets) x names, strangers, a 10-year clock jump; after every step every getter for every id (incl. a never-put one), list/containersOf/count as sets, NNS alias records, tombstones and a raw scan of all six key families", "4.4"),
+ "C06": ("chainmc", "two explicit-state BFS explorations over candidate/subscription/tick/next-block sequences (Netmap+Balance+probe subscribers on a 1-key committee; bare Netmap+probes on a 3-key committee with majority signers), lock-step model",
          "all sequences up to depth 5 / 7: newEpoch with epoch deltas -1/0/+1/+2/+3 by Alphabet/stranger/node, two probe subscribers (one rejects epoch 3), double and unauthorised subscriptions, several transactions per block and block advances; success iff witnessed, growing and not rejected; published maps in both formats, tick height, subscriber order, Balance unlock effect", "4.6"),
  "C07": ("chainmc", "explicit-state BFS to fixpoint over the complete reachable candidate state space (2 keys x 2 lists x states x info versions) x all operations x signer sets",
-         "exhaustive: the frontier runs empty (961 states, ~90k transitions); both candidate lists, notifications, witness requirements, unknown states and malformed keys compared with a two-map model", "4.7"),
+         "exhaustive on a 3-key committee: the frontier runs empty (961 states, ~105k transitions) with signer sets {node+Alphabet, Alphabet, node, Alphabet+other node, stranger, majority+node, majority}; both candidate lists, notifications, witness requirements, unknown states and malformed keys compared with a two-map model", "4.7"),
  "C08": ("chainmc", "explicit-state BFS over tick^a resize tick^b resize tick^c histories (prefix tree with state de-duplication) against a slice-of-maps model with a keep counter",
          "quick: counts {0,1,2,3,5,9,10,11,12}, <=14 epochs, <=2 resizes; thorough: counts 0..12, <=30 epochs; after every step snapshot(d) for all d, snapshotByEpoch/listNodes(e) for a window of epochs, netmap(), raw scan of ring slots and per-epoch lists, and a probe tick after every accepted resize", "4.8"),
  "C09": ("chainmc", "explicit-state BFS over lock/burn/transfer/tick sequences with up to 3 simultaneous locks, lock-step model of lock records",
          "all sequences up to depth 5 / 8; until in the past/present/future and 0, zero-amount locks, partial and full burns, ticks by +1/+2, direct balance.newEpoch; every tick must release exactly the expired locks, once, with the remaining balance", "4.9"),
 
  "C10": ("chainmc", "explicit-state BFS over register/registerTLD/transfer/renew/setAdmin/time-step sequences on the real NNS bytecode, lock-step ownership model",
-         "all sequences up to depth 4 / 6 over 5 names (2nd..4th level, two TLDs), 3 owners, a contract receiver, an admin, wrong-signer variants, clock steps to exp-1/exp/exp+1 of the earliest-expiring name and +1 year; after every step totalSupply, balanceOf, tokensOf, ownerOf, properties (expiration, admin), isAvailable for every name, Transfer/Renew/SetAdmin notifications", "4.10"),
+         "all sequences up to depth 5 / 7 over 5 names (2nd..4th level, two TLDs), 3 owners, a contract receiver, an admin, wrong-signer variants, clock steps to exp-1/exp/exp+1 of the earliest-expiring name and +1 year; after every step totalSupply, balanceOf, tokensOf, ownerOf, properties (expiration, admin), isAvailable for every name, Transfer/Renew/SetAdmin notifications", "4.10"),
  "C11": ("chainmc", "explicit-state BFS over ownership histories crossed with every mutating NNS method under signer sets {owner, former owner, admin, stranger, committee, Alphabet, new owner+admin}",
          "all sequences up to depth 3 / 5 over ~150 operations on a 3-key committee (majority account differs from the Alphabet account): records, SOA, renew, setAdmin, transfer, sub-name registration, registerTLD, setPrice, TLD operations; an unauthorised call must fault with an empty storage diff, an authorised one must succeed with exactly the modelled effect", "4.11"),
  "C12": ("chainmc", "two explicit-state BFS explorations (record lists incl. sub-names/conflicts/SOA/expiry; CNAME graphs) against a record-list model keyed by the enclosing registered name",
          "records: all sequences up to depth 3 / 5 over add/set/delete on a name, its unregistered sub-name and a sub-sub-name, four types, the 16th/17th value, duplicates, SOA, registration conflicts, expiry and take-over, one block per mutation so SOA serials are distinguishable; CNAME: all sequences up to depth 5 / 16 over edges among five names forming chains of 0..4 links, a 2-cycle, a self-loop, a target kept under another name; after every step getRecords, getAllRecords (order, ids), resolve with and without trailing dot for every name and type", "4.12"),
  "C14": ("chainmc", "explicit-state BFS over roster histories (add batches crossing the 127/255/256 counter boundaries, commits) plus an exhaustive grid of signature matrices from a symbol menu, against an independent ECDSA oracle",
          "roster: all add/commit sequences up to depth 4 / 6 with batches of 1, 2, 127, 128, 129 keys over three vectors, strangers, malformed keys and ids; nodes(), replicasNumbers() and the raw pending roster compared in order after every step. signatures: every matrix with <= REP+1 slots per vector over {distinct members, byte-identical repeat, malleated twin of the same member, non-member, other message, junk}, REP 1..4 x 1..2, missing vectors; accepted => REP distinct members verified (Go crypto), submitObjectPut halts iff verification accepts, honest matrix accepted", "4.14"),
- "C18": ("chainmc", "exhaustive enumeration of candidate strings (all strings up to length 5/6 over a 10-symbol alphabet, structured IPv4/IPv6/name/TXT grids) through every validating NNS entry point, against independent Go validators (regexp, netip)",
-         "quick 2.5e5 / thorough 1.25e6 candidates, each through addRecord and setRecord (and isAvailable/register/registerTLD for names) on the real bytecode from one base state; accepted <=> the independent reference accepts; a rejection must leave an empty storage diff", "4.18"),
+ "C18": ("chainmc", "exhaustive enumeration of candidate strings (all strings up to length 5/7 over a 10-symbol alphabet, structured IPv4/IPv6/name/TXT grids) through every validating NNS entry point, against independent Go validators (regexp, netip)",
+         "quick 2.5e5 / thorough 1.1e7 candidates, each through addRecord and setRecord (and isAvailable/register/registerTLD for names) on the real bytecode from one base state; accepted <=> the independent reference accepts; a rejection must leave an empty storage diff", "4.18"),
  "C17": ("chainmc", "explicit-state BFS over vote/stranger/advance-blocks sequences on the NeoFS contract deployed without Notary, one exploration per Alphabet size, against a ballot model (voter set + height of the last counted vote)",
          "n=1..4 (quick) / 1..7 (thorough): all sequences up to threshold+2 / threshold+3 invocations of setConfig (two competing ids), cheque, alphabetUpdate and innerRingCandidateRemove by every member, a stranger and the candidate, with block gaps 1/19/20/21 and several votes per block; for n>=3 new voters are introduced in index order (the contract only compares keys for equality), n=3 additionally in every order in the thorough tier; the effect (config value, GAS at payee and contract, Alphabet list, candidate list, exactly one notification) must happen in exactly the invocation that completes floor(2n/3)+1 distinct votes", "4.17"),
  "C05": ("chainmc", "exhaustive grid over fee settings x Alphabet sizes {1,4,7} x owner-balance boundaries x naming modes x short histories, exact balance-delta oracle",
          "1134 cases: ContainerFee {0,1,7} x ContainerAliasFee {0,3} x {unnamed, new name, name reused after delete, domain registered in advance} x balance {T-1,T,T+1,2T-1,2T} x history {put; put,put; put,setConfig(fee'),put} plus Alphabet-node-as-owner rows; exact debit of the owner, exact credit of every Alphabet node account, N TransferX notifications with container-fee details, container stored; below the threshold the call must fault with an empty diff of all contracts", "4.5"),
  "C19": ("chainmc", "four explicit-state BFS explorations of the NeoFS/Processing GAS ledger (Notary on/off x Alphabet sizes) against a ledger model on the real native GAS balances, plus an exhaustive emit/acceptance grid",
-         "ledger: all sequences up to depth 3 / 5 over deposits (0, 1, 9000 GAS, 9000 GAS+1; receiver data nil/20/19 bytes/ignore marker; foreign signer), direct and non-GAS payment-hook calls, withdraw (-1,0,1,9000,9001; owner/stranger), cheque, candidate add/remove, fee changes; contract GAS == received - cheques, exact fees to the right payees, Deposit notification <=> GAS transfer, refused => empty diff on contracts and GAS. emit: Alphabet contract index {0,2} x Inner Ring size 1..7 x g in [0,256]/[0,4096] plus powers of 2/10 boundaries up to 10^12 x signer {own node, other node, Alphabet multisig, stranger}: exact shares, conservation, g<2 faults; Proxy/Processing/Alphabet x {GAS, NEO, non-GAS contract} acceptance", "4.19"),
+         "ledger: all sequences up to depth 4 / 6 over deposits (0, 1, 9000 GAS, 9000 GAS+1; receiver data nil/20/19 bytes/ignore marker; foreign signer), direct and non-GAS payment-hook calls, withdraw (-1,0,1,9000,9001; owner/stranger), cheque, candidate add/remove, fee changes; contract GAS == received - cheques, exact fees to the right payees, Deposit notification <=> GAS transfer, refused => empty diff on contracts and GAS. emit: Alphabet contract index {0,2} x Inner Ring size 1..7 x g in [0,256]/[0,4096] plus powers of 2/10 boundaries up to 10^12 x signer {own node, other node, Alphabet multisig, stranger}: exact shares, conservation, g<2 faults; Proxy/Processing/Alphabet x {GAS, NEO, non-GAS contract} acceptance", "4.19"),
  "C20": ("chainmc", "five explicit-state BFS explorations (Reputation, Audit, container size estimations, NeoFSID, Netmap/NeoFS configuration) against multiset/map models with all-combination read-back",
          "all put sequences up to depth 3..4 / 4..6 per store over epochs {0,1,127,128,255,256,257,65535,65536} (encodings that are prefixes of one another), 2 containers, 2-3 nodes/peers/owners, 2 values, configuration keys {'',a,ab,abc,b}; after every step every getter and listing for every (epoch, container, node, owner, key) combination; estimation access rules (node of the previous map, witnessed, existing container), audit access rules (Inner Ring member, witnessed), cleanup deltas 3/4 on put and on tick incl. a raw storage scan; an extra list element is tolerated only when explained by the listed epoch-prefix finding", "4.20"),
  "C03": ("chainmc", "exhaustive grid: every method of the eleven manifests compiled from the tree x eight signer sets x committee sizes {1,3,4,7}, each case executed from one prepared base state, full storage/notification/token diff oracle",
@@ -45,7 +45,7 @@ CHECKS = {
  "C13": ("deploymc", "stateless schedule/crash exploration of the real deploy.Deploy by iterative deviation bounding (default schedule, then all enumerated one-deviation schedules: sleep, crash-restart, adjacent reorder, absent minority; thorough: pairs) on an in-process neo-go chain with Notary services under testing/synctest virtual time; exhaustive input grids for the three pure helpers",
          "quick: n=1..4 default (determinism self-check), every sleep(member, round, 1) and every crash at every second round with immediate restart for n<=3, adjacent transaction swaps for n=2, every absent minority for n=3,4 (~1450 complete runs of Deploy); thorough: n=1..7, sleeps of 1/3/150 rounds and crashes with two restart delays for n<=4, call-granular crash points, reorders for n<=3, minorities for n=3..7, two-deviation sleep pairs for n=2, all 2^32 heights of the transaction-window helper; oracle on every final chain: all runs return nil, roles designated to exactly the committee, NNS id 1, every system name resolves to exactly one contract with the supplied executable, 8+n contracts, no designation with an invalid witness ever submitted, a second run submits no deploy/update/register/addRecord/setRecord/designateAsRole and changes nothing", "3"),
  "C16": ("chainmc", "exhaustive grids: (contract x version around both bounds x synthetic legacy storage) driven through an old-version stub that calls management.update so the tree's _deploy(data,true) runs on that storage; and (contract x signer set x committee size) updating the real contracts to a scratch build of the same tree with the patch version +1",
-         "1130 window/migration cases: 11 contracts x {prev-1, prev, prev+1, 15999, 16000, 16999, 17000, 17999, 18000, 18999, 19000, 19999, cur-1, cur, cur+1} x layouts (un-prefixed/prefixed/mixed balance accounts incl. a lock account, un-prefixed/prefixed/mixed container and owner-index keys with eACL and alias, old-format netmap snapshots and candidates with ring sizes 3/10/12, stored subscriber hashes, owned TLDs with names and records, audit/reputation/neofsid/neofs/alphabet data) x notary flag {absent,false,true} x ballots {absent,empty,stale,fresh}: outside the window => FAULT by the version check with an empty diff; inside => HALT and every read-API answer equals what the generator stored (fresh ballot + notary=true must fault); 264 gate cases for committees of 1,3,4,7: only the committee majority updates, version()+1, read API unchanged", "4.16"),
+         "recorded dumps (testnet v0.15.4, mainnet v0.16, NNS testnet v0.17): the recorded old executables answer up to 300 reads per contract before, the tree's contract after the committee's update, lenient only where a migration is documented; 1130 window/migration cases: 11 contracts x {prev-1, prev, prev+1, 15999, 16000, 16999, 17000, 17999, 18000, 18999, 19000, 19999, cur-1, cur, cur+1} x layouts (un-prefixed/prefixed/mixed balance accounts incl. a lock account, un-prefixed/prefixed/mixed container and owner-index keys with eACL and alias, old-format netmap snapshots and candidates with ring sizes 3/10/12, stored subscriber hashes, owned TLDs with names and records, audit/reputation/neofsid/neofs/alphabet data) x notary flag {absent,false,true} x ballots {absent,empty,stale,fresh}: outside the window => FAULT by the version check with an empty diff; inside => HALT and every read-API answer equals what the generator stored (fresh ballot + notary=true must fault); 264 gate cases for committees of 1,3,4,7: only the committee majority updates, version()+1, read API unchanged", "4.16"),
 }
 
 NOT_YET = "check not built yet in this revision (work in progress; see DESIGN.md section 10)"
